@@ -45,9 +45,9 @@ type Stream struct {
 type Tape struct {
 	replicaID  uint32
 	replicaSet bool
-	Seed    uint64
-	streams map[string]*Stream
-	replay  bool
+	Seed       uint64
+	streams    map[string]*Stream
+	replay     bool
 }
 
 // NewTape creates a recording tape for a seed.
